@@ -3,7 +3,8 @@
  "name": "mark_table_blocks",
  "props": ["C19"],
  "level": "U/iter",
- "tier": "quick",
+ "tier": "wip",
+ "tier_after_hooks": "quick",
  "harness": "h_mark_table_blocks",
  "loop_contracts": true,
  "includes": ["misc", "lib/support"],
@@ -25,7 +26,8 @@
  "name": "e2image_check_zero_block",
  "props": ["C19"],
  "level": "U",
- "tier": "quick",
+ "tier": "wip",
+ "tier_after_hooks": "quick",
  "harness": "h_check_zero_block",
  "enforce": ["check_zero_block"],
  "loop_contracts": true,
